@@ -44,7 +44,10 @@ func (peerSet *PeerSet) initMaps() {
 
 // WithNewPeer returns a new PeerSet with a list of peers including the new one.
 func (peerSet *PeerSet) WithNewPeer(peer *Peer) *PeerSet {
-	peers := peerSet.Peers
+	// copy the slice so that sets derived from the same base never share (and
+	// overwrite) a backing array
+	peers := make([]*Peer, len(peerSet.Peers), len(peerSet.Peers)+1)
+	copy(peers, peerSet.Peers)
 
 	// don't add it if it already exists
 	if _, ok := peerSet.ByID[peer.ID()]; !ok {
